@@ -314,8 +314,13 @@ def replace_star_with_str(obj, value):
 
 def expand_plates(obj, parent=None, idx=None):
     if isinstance(obj, list):
-        for i, element in enumerate(obj):
+        i = 0
+        while i < len(obj):
+            element = obj[i]
             expand_plates(element, obj, i)
+            # a plate was replaced by its clones: expand what they contain too
+            if i < len(obj) and obj[i] is element:
+                i += 1
     elif isinstance(obj, dict):
         if 'type' in obj and obj['type'].endswith('Plate'):
             if 'range' in obj:
